@@ -188,7 +188,7 @@ def R4_formula(ctx, rid="C07.R4"):
     ctx.check(ok, "vehicle:aggregated", "vehicle costs are not aggregated with cost_aggregation.agg_iter over all features: %s" % short(rt)[:160], b.where())
     cl, cb = closure_of(F, rt, "calculate_vehicle_costs")
     it = rt[2][1] if ok else None
-    ctx.check(ok and it[0] == "call" and it[1].endswith("Iterator::map") and it[2][0] == ("call", "std::slice::<impl [T]>::iter", (("arg", 2),)), "vehicle:all-features", "the map does not range over all feature indices", b.where())
+    ctx.check(ok and it[0] == "call" and itm(it[1], "map") and it[2][0] == ("call", "std::slice::<impl [T]>::iter", (("arg", 2),)), "vehicle:all-features", "the map does not range over all feature indices", b.where())
     caps = cl[2]
     cap = lambda t: caps.index(t) if t in caps else None
     i_prev, i_next, i_rates, i_w = cap(("field", ("arg", 1), "0")), cap(("field", ("arg", 1), "1")), cap(("arg", 4)), cap(("arg", 3))
@@ -304,7 +304,7 @@ def R4_formula(ctx, rid="C07.R4"):
                     fcl = F.need(folds[0][2][2][1])
                     got = Arith(F, {("arg", 2): "a", ("arg", 3): "b"}).ev(nosite(deep_strip(Terms(fcl).return_term())))
                     ok = got.equals(Ratio(Poly.sym("a")) + Ratio(Poly.sym("b")))
-                    inner = [c for c in calls_in(folds[0][2][0]) if c[1].endswith("Iterator::map")]
+                    inner = [c for c in calls_in(folds[0][2][0]) if itm(c[1], "map")]
                     ok = ok and len(inner) == 1 and inner[0][2][0] == ("call", "std::slice::<impl [T]>::iter", (("field", ("variant", ("arg", 1), "Combined"), "0"),))
                 ctx.check(ok, "%s:Combined" % method, "Combined is not a sum from ZERO over all inner rates: %s" % short(r.ret)[:200], nb.where())
     # ---- aggregation folds
